@@ -223,13 +223,31 @@ pub fn record(driver: &str, seed: u64, thorough: bool, out: &mut Out) -> Stats {
             }
             for c in 0..=255u8 {
                 let r = guarded(|| {
+                    // answers a note-on / a note-off / a controller / a pitch bend sent on channel ch
                     let mut resp = Vec::new();
                     for ch in 0..16u8 {
                         let mut rx = MonoMidiReceiver::new(c);
-                        rx.parse(0x90 | ch);
-                        rx.parse(60);
-                        rx.parse(100);
-                        resp.push(rx.gate() && rx.note_num() == 60);
+                        for b in [0x90 | ch, 60, 100] {
+                            rx.parse(b);
+                        }
+                        let on = rx.gate() && rx.note_num() == 60;
+                        for b in [0x80 | ch, 60, 0] {
+                            rx.parse(b);
+                        }
+                        let off = !rx.gate();
+                        for b in [0xB0 | ch, 1, 127] {
+                            rx.parse(b);
+                        }
+                        let cc = rx.mod_wheel() == 1.0;
+                        for b in [0xE0 | ch, 127, 127] {
+                            rx.parse(b);
+                        }
+                        let pb = rx.pitch_bend() == 1.0;
+                        // all four agree on a correct receiver; a disagreement is reported as "not this channel"
+                        // for the listened channel and as "this channel" for a foreign one
+                        let all = on && off && cc && pb;
+                        let any = on || cc || pb;
+                        resp.push(if ch == c.min(15) { all } else { any });
                     }
                     resp
                 });
